@@ -559,6 +559,55 @@ func (p *Peer) retryReplicators(ctx context.Context) {
 	}
 }
 
+// resetReplicatorRetries clears the in-progress mark of the persisted retry records.
+//
+// The mark is persisted, but a retry that was running when the node stopped is not running
+// any more: left in place, the mark would make the retry loop skip the replicator forever.
+func (p *Peer) resetReplicatorRetries(ctx context.Context) error {
+	store := datastore.PeerstoreFrom(p.db.Rootstore())
+	iter, err := store.Iterator(ctx, corekv.IterOptions{
+		Prefix: []byte(keys.REPLICATOR_RETRY_ID),
+	})
+	if err != nil {
+		return err
+	}
+	retrying := make(map[string]retryInfo)
+	for {
+		hasNext, err := iter.Next()
+		if err != nil {
+			return errors.Join(err, iter.Close())
+		}
+		if !hasNext {
+			break
+		}
+		value, err := iter.Value()
+		if err != nil {
+			return errors.Join(err, iter.Close())
+		}
+		rInfo := retryInfo{}
+		// a record that can't be read is dealt with by the retry loop
+		if cbor.Unmarshal(value, &rInfo) == nil && rInfo.Retrying {
+			retrying[string(iter.Key())] = rInfo
+		}
+	}
+	err = iter.Close()
+	if err != nil {
+		return err
+	}
+	for key, rInfo := range retrying {
+		rInfo.Retrying = false
+		b, err := cbor.Marshal(rInfo)
+		if err != nil {
+			return err
+		}
+		err = store.Set(ctx, []byte(key), b)
+		if err != nil {
+			return err
+		}
+	}
+	return nil
+}
+
 func (p *Peer) setReplicatorAsRetrying(ctx context.Context, key keys.ReplicatorRetryIDKey, rInfo retryInfo) error {
 	rInfo.Retrying = true
 	rInfo.NumRetries++
